@@ -321,3 +321,105 @@ def members_resolver(members: dict):
             return node, not static
         return None
     return resolve
+
+
+# ----------------------------------------------------------------------------------------------------------------------------
+# desugaring of collection-building expressions and conditional expressions in statement position
+
+def _reads(node) -> set:
+    return {n.id for n in ast.walk(node) if isinstance(n, ast.Name)}
+
+
+def _pure_test(e) -> bool:
+    """an expression that only inspects its operands (isinstance, comparisons, boolean connectives, attribute reads)"""
+    for n in ast.walk(e):
+        if isinstance(n, ast.Call):
+            if not (isinstance(n.func, ast.Name) and n.func.id in ('isinstance', 'len', 'type', 'callable', 'hasattr')):
+                return False
+        elif isinstance(n, (ast.NamedExpr, ast.Await, ast.Yield, ast.YieldFrom, ast.Lambda, ast.ListComp, ast.SetComp, ast.DictComp,
+                            ast.GeneratorExp)):
+            return False
+    return isinstance(e, (ast.Call, ast.Compare, ast.BoolOp, ast.UnaryOp))
+
+
+def _expand_test_aliases(stmts: list) -> list:
+    """`t = <pure test>` (bound once in the function, read afterwards in the same block while its operands are not re-bound): the
+    reads of t are replaced by the test"""
+    out = list(stmts)
+    i = 0
+    while i < len(out):
+        st = out[i]
+        if isinstance(st, ast.Assign) and len(st.targets) == 1 and isinstance(st.targets[0], ast.Name) and _pure_test(st.value):
+            name = st.targets[0].id
+            rest = out[i + 1:]
+            stores = [n for s in rest for n in ast.walk(s) if isinstance(n, ast.Name) and isinstance(n.ctx, ast.Store) and
+                      n.id in (_reads(st.value) | {name})]
+            if not stores and not any(isinstance(n, (ast.FunctionDef, ast.Lambda)) for s in rest for n in ast.walk(s)):
+                sub = _Subst({name: st.value}, {})
+                out[i + 1:] = [sub.visit(s) for s in rest]
+        i += 1
+    return out
+
+
+def desugar_list(stmts: list) -> list:
+    stmts = _expand_test_aliases(stmts)
+    out = []
+    for st in stmts:
+        for fld in ('body', 'orelse', 'finalbody'):
+            lst = getattr(st, fld, None)
+            if isinstance(lst, list) and lst and isinstance(lst[0], ast.stmt) and not isinstance(st, (ast.FunctionDef, ast.ClassDef)):
+                setattr(st, fld, desugar_list(lst))
+        if isinstance(st, ast.Try):
+            for h in st.handlers:
+                h.body = desugar_list(h.body)
+        # L.append(A if c else B)  ->  if c: L.append(A) else: L.append(B)
+        if isinstance(st, ast.Expr) and isinstance(st.value, ast.Call) and isinstance(st.value.func, ast.Attribute) and \
+                st.value.func.attr == 'append' and len(st.value.args) == 1 and isinstance(st.value.args[0], ast.IfExp) and \
+                not st.value.keywords:
+            c = st.value
+            ie = c.args[0]
+
+            def app(v):
+                return ast.copy_location(ast.Expr(value=ast.copy_location(
+                    ast.Call(func=copy.deepcopy(c.func), args=[v], keywords=[]), c)), st)
+            new = ast.copy_location(ast.If(test=ie.test, body=desugar_list([app(ie.body)]), orelse=desugar_list([app(ie.orelse)])), st)
+            out.append(new)
+            continue
+        # L.append([E for x in it if c])  /  name = [E for x in it if c]   ->  explicit loop filling a fresh list
+        comp = None
+        if isinstance(st, ast.Expr) and isinstance(st.value, ast.Call) and isinstance(st.value.func, ast.Attribute) and \
+                st.value.func.attr == 'append' and len(st.value.args) == 1 and isinstance(st.value.args[0], ast.ListComp):
+            comp = st.value.args[0]
+            k = next(_counter)
+            tmp = f'built__d{k}'
+        elif isinstance(st, ast.Assign) and len(st.targets) == 1 and isinstance(st.targets[0], ast.Name) and \
+                isinstance(st.value, ast.ListComp):
+            comp = st.value
+            tmp = st.targets[0].id
+            if tmp in _reads(comp):
+                comp = None
+        if comp is not None and len(comp.generators) == 1 and not comp.generators[0].is_async:
+            g = comp.generators[0]
+            init = ast.copy_location(ast.Assign(targets=[ast.Name(id=tmp, ctx=ast.Store())], value=ast.List(elts=[], ctx=ast.Load())), st)
+            add = ast.copy_location(ast.Expr(value=ast.Call(func=ast.Attribute(value=ast.Name(id=tmp, ctx=ast.Load()), attr='append',
+                                                                              ctx=ast.Load()), args=[comp.elt], keywords=[])), comp)
+            body = [add]
+            for c in reversed(g.ifs):
+                body = [ast.copy_location(ast.If(test=c, body=body, orelse=[]), comp)]
+            loop = ast.copy_location(ast.For(target=g.target, iter=g.iter, body=desugar_list(body), orelse=[]), comp)
+            out.extend([init, loop])
+            if isinstance(st, ast.Expr):
+                st.value.args[0] = ast.copy_location(ast.Name(id=tmp, ctx=ast.Load()), comp)
+                out.append(st)
+            continue
+        out.append(st)
+    return out
+
+
+def desugar(fn: ast.FunctionDef) -> ast.FunctionDef:
+    """list comprehensions that are appended / bound become explicit loops, appended conditional expressions become if/else,
+    locals that merely name a pure test are replaced by the test"""
+    fn = copy.deepcopy(fn)
+    fn.body = desugar_list(fn.body)
+    ast.fix_missing_locations(fn)
+    return fn
